@@ -232,6 +232,10 @@ func (c *SyncMap) Restore(r io.Reader) (int, error) {
 			return n, err
 		}
 
+		// Usage counter describes serving history in the cache of origin (last serve timestamp or number of
+		// serves, depending on eviction strategy there), this cache has not served the entry yet.
+		e.C = 0
+
 		c.t.entryRestored(e.E)
 		c.data.Store(string(e.K), &e)
 
